@@ -220,6 +220,9 @@ pub fn check_gradient(c: &GradCase, pixels: &[u32]) -> GradResult {
         match tv {
             TVal::Skip => None,
             TVal::Nothing => Some(if px == 0 { 0. } else { 255. }),
+            // (the shaders carry the gradient parameter in 16.16 fixed point: beyond +-32768 it wraps, and a repeating
+            // or reflecting ramp shows an unrelated phase - outside the working range, not asserted)
+            TVal::T(t, _) if t.abs() > 30000. => None,
             TVal::T(t, band) => {
                 let d = 3. / 255. + band;
                 let ivs = fold(t - d, t + d, spread);
